@@ -90,7 +90,16 @@ MoreUses ==
     <<NRoot, NKey(KA), NMethod("keyvalue"), NKey(KVal), NMethod("double"), NMethod("string")>>,
     <<NRoot, NFilter(NBin("gt", At(<<NKey(KA), NMethod("keyvalue"), NKey(KVal), NMethod("integer")>>), Lit(2)))>>,
     <<NRoot, NFilter(NUn("exists", At(<<NKey(KA), NMethod("keyvalue"), NKey(KVal), NMethod("integer")>>))), NKey(KB)>> }
-CtxPaths == SetToSeq(LastUses \cup CurUses \cup LenUses \cup MoreUses)
+(* a chain that starts at a variable, also where only existence is asked: it must be walked to its end *)
+Gt9 == NFilter(NBin("gt", <<NCur>>, Lit(9)))
+KV2 == <<118>>      \* $v, bound by the runner to {"a": {"b": 1}, "c": [1, 2]}
+VarUses ==
+  { <<NVar(KV2), NKey(KA), NKey(KB)>>, <<NVar(KV2), NKey(KA), NKey(KC)>>, <<NVar(KV2), NKey(KX)>>, <<NVar(KV2), NKey(KC), NAnyArr, Gt9>>,
+    <<NRoot, NFilter(NUn("exists", <<NVar(KV2), NKey(KA), NKey(KC)>>))>>, <<NRoot, NFilter(NUn("exists", <<NVar(KV2), NKey(KA), NKey(KB)>>))>>,
+    <<NRoot, NFilter(NUn("not", <<NUn("exists", <<NVar(KV2), NKey(KC), NAnyArr, Gt9>>)>>))>> }
+CtxVars == << [k |-> KV2, v |-> VObj(<<[k |-> KA, v |-> VObj(<<[k |-> KB, v |-> VFlt(1)]>>)], [k |-> KC, v |-> VArr(<<VFlt(1), VFlt(2)>>)]>>)] >>
+ASSUME ndJsonSerialize("ctxvars.ndjson", <<[vars |-> CtxVars]>>)
+CtxPaths == SetToSeq(LastUses \cup CurUses \cup LenUses \cup MoreUses \cup VarUses)
 Row(x) == VObj(<<[k |-> KA, v |-> VArr(x)], [k |-> KB, v |-> VFlt(1)]>>)
 CtxDocs == SetToSeq(
   { VObj(<<[k |-> KA, v |-> a], [k |-> KB, v |-> b]>>) :
